@@ -984,19 +984,46 @@ def generate(run, tier, tmp):
 
 
 def record(tmp, programs_path, combos=None):
-    outdir = os.path.join(tmp, "rec")
-    args = [programs_path, outdir] + ["%s:%s" % c for c in (combos or [])]
-    rc, out, err = vlib.run_bin("record_socket", args, timeout=6000)
-    lines = vlib.jsonl(out)
-    summ = [x for x in lines if x.get("type") == "summary"]
-    if not summ:
-        raise vlib.ToolError("record_socket produced no summary\n%s" % err[-2000:])
-    return outdir, summ[0], [x for x in lines if x.get("type") != "summary"]
+    """one recorder process per transport/driver combination (three at a time). A process that dies
+    (abort inside the code under test) is data: what it recorded is judged, the death is reported."""
+    combos = list(combos or COMBOS)
+
+    def go(c):
+        outdir = os.path.join(tmp, "rec_%s_%s" % c)
+        rc, out, err = vlib.run_bin("record_socket", [programs_path, outdir, "%s:%s" % c], timeout=6000, check=False)
+        return c, outdir, rc, out, err
+
+    merged = {"combos": {}}
+    problems = []
+    with ThreadPoolExecutor(3) as ex:
+        for c, outdir, rc, out, err in ex.map(go, combos):
+            lines = vlib.jsonl(out)
+            summ = [x for x in lines if x.get("type") == "summary"]
+            problems += [x for x in lines if x.get("type") != "summary"]
+            key = "%s:%s" % c
+            if summ and rc == 0:
+                merged["combos"].update(summ[0].get("combos", {}))
+                if summ[0].get("aborted"):
+                    merged["combos"].setdefault(key, {"programs": 0, "events": 0, "trace": os.path.join(outdir, "trace_%s_%s.ndjson" % c)})
+                    merged["combos"][key]["died"] = "recorder watchdog: no progress"
+            else:
+                trace = os.path.join(outdir, "trace_%s_%s.ndjson" % c)
+                if not os.path.exists(trace):
+                    raise vlib.ToolError("record_socket %s failed before recording anything rc=%s\n%s" % (key, rc, err[-2000:]))
+                merged["combos"][key] = {"programs": 0, "events": 0, "trace": trace, "unsupported": {},
+                                         "died": "rc=%s: %s" % (rc, (err.strip().splitlines() or ["?"])[-1][:300])}
+    return tmp, merged, problems
 
 
 def load_trace(path):
+    out = []
     with open(path) as f:
-        return [json.loads(x) for x in f if x.strip()]
+        for x in f:
+            try:
+                out.append(json.loads(x))
+            except ValueError:
+                break           # a line cut short by a dying process
+    return out
 
 
 def judge(events):
@@ -1135,7 +1162,7 @@ def run(run, tier, replay):
                 f.write(json.dumps(obj["program"]) + "\n")
             vlib.cargo_build("hnet", ["record_socket"])
             outdir, summ, problems = record(tmp, p, [(obj["tr"], obj["drv"])])
-            ev = load_trace(os.path.join(outdir, "trace_%s_%s.ndjson" % (obj["tr"], obj["drv"])))
+            ev = load_trace(summ["combos"]["%s:%s" % (obj["tr"], obj["drv"])]["trace"])
             judged = judge(ev)
             report_all(run, {(obj["tr"], obj["drv"]): judged}, {}, {obj["program"]["id"]: obj["program"]})
             run.add_traces(len(judged))
@@ -1158,17 +1185,12 @@ def run(run, tier, replay):
         outdir, summ, problems = record(tmp, ppath)
         vlib.log("C14: programs recorded on real sockets (%.0fs)" % (time.time() - t0))
         per_combo = summ.get("combos", {})
-        if summ.get("aborted"):
-            for p in problems:
-                run.report(dict(p["sig"], type=p["type"]), p["desc"], p.get("case"))
         unsupported, unavailable = {}, {}
         judged_by_combo = {}
         events_by_combo = {}
         for tr, drv in COMBOS:
             c = per_combo.get("%s:%s" % (tr, drv))
             if not c:
-                if summ.get("aborted"):
-                    continue
                 raise vlib.ToolError("record_socket did not run %s:%s" % (tr, drv))
             if c.get("driver_unavailable"):
                 unavailable["%s:%s" % (tr, drv)] = c["driver_unavailable"]
@@ -1181,6 +1203,11 @@ def run(run, tier, replay):
             ev = load_trace(c["trace"])
             events_by_combo[(tr, drv)] = len(ev)
             judged_by_combo[(tr, drv)] = judge(ev)
+            if c.get("died"):
+                last = judged_by_combo[(tr, drv)][-1]["prog"] if judged_by_combo[(tr, drv)] else None
+                run.report({"site": "process", "kind": "died", "tr": tr, "drv": drv, "type": "panic"},
+                           "[%s/%s] the recorder process died while running program %s: %s" % (tr, drv, last, c["died"]),
+                           {"program": programs.get(last), "tr": tr, "drv": drv})
         run.note("unsupported_operation_kinds", unsupported)
         run.note("driver_unavailable", unavailable)
         if unavailable:
